@@ -111,6 +111,10 @@ class Engine:
         self.obligations.append(ob)
         return ob
 
+    def cover(self, name, st, cond=True):
+        """Vacuity guard: this point must be reachable (with cond)."""
+        return self.oblige(name, st, cond, kind="cover")
+
     # ------------------------------------------------------------------ forking helpers
     def branch(self, st, cond):
         """cond: bool | z3 Bool -> list of (state, bool)."""
